@@ -120,6 +120,8 @@ def _unit(bounded, maxn):
     if i < 0:
         raise Undecided("extraction out of date: start of greedy_fvs")
     body = body[i:]
+    body = X.canon(body, [(r"std::deque<Vertex> (\w+);", ["forRemoval"]), (r"VertexIt (\w+), (\w+);", ["vi", "viend"])], log)
+    body = X.inline_temps(body, log)
     body = X.rewrite(body, [
         (r"std::size_t n = boost::num_vertices\(g\);", "size_t n = vp_n;", 1, "container-api", ""),
         (r"std::vector<bool> exists\(n\);", "", 1, "container-api", "vector<bool> -> array EX"),
